@@ -165,3 +165,12 @@ package io
 //@ ensures[ok] r.Err == nil ==> result != nil && len(result) == decvar(r.r.in, old(r.r.pos)) && r.r.pos == old(r.r.pos) + declen(r.r.in, old(r.r.pos)) + len(result) && forall(i, 0, len(result), result[i] == r.r.in[old(r.r.pos) + declen(r.r.in, old(r.r.pos)) + i])
 //@ ensures[fresh] result != nil ==> fresh(result)
 //@ ensures[pos] old(r.r.pos) <= r.r.pos && r.r.pos <= len(r.r.in) && validR(r)
+
+// ReadArray works through reflection (outside the verifier's subset); its contract is assumed.
+// A negative size limit disables the bound check and lets the element count become negative,
+// so callers must pass a non-negative limit.
+//@ func (*BinReader).ReadArray
+//@ assumed
+//@ requires validR(r) && (len(maxSize) > 0 ==> maxSize[0] >= 0)
+//@ modifies r.Err, r.uv, r.r.pos
+//@ ensures old(r.r.pos) <= r.r.pos && validR(r)
